@@ -21,6 +21,76 @@ TABLE = {
         "gmpy2 shim (Fraction) stands in for gmpy2.qdiv.",
         "6/C14",
     ),
+    "C05": (
+        "model_checking",
+        "stateless choice exploration (deviation-bounded DFS over environment answers) of complete runs of the real multilevel engine against a list-per-level reference model",
+        "Every configuration of a stated lattice x every sequence of per-(level,batch) sample regimes with at most D "
+        "deviations from the default is executed on the real Engine.price / fixed-level variant with a scripted coupling "
+        "process; after every set_mlmc_results and at return the stored rows, Nl, price and derived statistics are compared "
+        "with a plain list of the samples actually simulated. Bookkeeping across passes and level additions is a history "
+        "property, so exhaustive exploration of loop trajectories is the fitting level.",
+        "The coupling process is a scripted stand-in implementing the engine-facing interface; single process; horizon 40 "
+        "batches per level; regimes from a 5-letter menu.",
+        "6/C05",
+    ),
+    "C09": (
+        "exploration",
+        "exhaustive lattice sweep (models x all interval pairs of a 15-point end-point alphabet x n x truncations) against quadrature of the model's own density",
+        "All closed-form integrals of the Levy measures on the complete lattice are compared with adaptive quadrature of "
+        "x^n nu(x) (error-estimate gated), with additivity on all triples, sign rules and truncated-measure rules. The "
+        "property is a functional identity over a continuum: complete coverage of a branch-covering lattice is what an "
+        "enumeration technique can give.",
+        "Lattice points only; quadrature oracle trusted within its own error estimate; integrals the library itself "
+        "computes by scipy.quad are compared at quad's accuracy.",
+        "6/C09",
+    ),
+    "C10": (
+        "model_checking",
+        "lattice sweep of exponent/cumulant/martingale identities + explicit-state BFS to closure over set_representation histories",
+        "Exponent vs Levy-Khintchine quadrature, cumulants vs triplet integrals, all three martingale routes (CF at -i, "
+        "direct-simulation drift, Markov-chain drift) on the complete model lattice; the representation-change graph is "
+        "searched to closure (one drift per representation proves path independence and reversibility for any history).",
+        "Lattice points only; quadrature with the x = t^8 substitution near the origin; the chain route uses three (nine) "
+        "small grids.",
+        "6/C10",
+    ),
+    "C11": (
+        "exploration",
+        "exhaustive enumeration of all rectangles / argument vectors over a signed coordinate alphabet with infinite entries, d = 2, 3",
+        "Groundedness, non-negative volume of every rectangle (library volume and an independent signed sum), identity "
+        "margins, Clayton conditional distribution / inverse, and the mixed derivative against a central mixed difference "
+        "with a proven truncation bound, for the complete copula-parameter lattice.",
+        "Alphabet points only; finite-difference comparisons are made only where the proven bound is below 1 %.",
+        "6/C11",
+    ),
+    "C13": (
+        "model_checking",
+        "explicit-state search: state = grid, transition = the real refine(); every constructor x model x argument of the lattice",
+        "Every grid state reachable by up to 3 (5) refinements from every constructor call of the lattice is checked "
+        "against the state invariants, every refine() edge against the nesting invariants; constructor promises are "
+        "verified by quadrature of the model's own density.",
+        "Depth-bounded; lattice of constructor arguments; the graph is a chain because refine() is the only operation.",
+        "6/C13",
+    ),
+    "C17": (
+        "model_checking",
+        "exhaustive path/strike lattices through the real path managers + explicit-state BFS over evaluation/update histories of one Product",
+        "All paths of length 2..4 (5) over a 5-letter alphabet x strikes x barriers x thresholds for the static identities; "
+        "breadth-first search over sequences of evaluations and representation updates on one product object for purity, "
+        "each state compared with a freshly constructed product.",
+        "Alphabets and depth bounded as stated; ties at strikes/barriers only checked for parity where the statement "
+        "fixes no rule.",
+        "6/C17",
+    ),
+    "C20": (
+        "model_checking",
+        "lattice sweep of calibrations + explicit-state BFS over attribute-assignment histories of every Parameters class",
+        "Every calibration of the lattice must return an in-interval root that reprices the target (or raise only when no "
+        "sign change exists) and leave its input bit-identical; every assignment history up to depth 3 (4) followed by "
+        "initialisation() must give a model indistinguishable from one built directly.",
+        "Lattice and depth bounded; repricing tolerance propagated from brentq's tolerances.",
+        "6/C20",
+    ),
 }
 
 READY = []  # filled from checks/ below; a module must define PID
